@@ -259,8 +259,9 @@ def element_parsing(
 
         # Handle other elements
         else:
-            # Do not repeat structural elements if they are being added to the same part.
-            if not same_part:
+            # Do not repeat structural elements if they are being added to the same part
+            # (clefs and staff declarations belong to the staff of this spine, not to the part)
+            if not same_part or isinstance(element, (spt.Clef, spt.Staff)):
                 part.add(element, start=current_tl_pos)
                 line2pos[doc_lines[i]] = current_tl_pos
             else:
